@@ -266,3 +266,8 @@ define void @f() #0 {
 attributes #0 = { nounwind }
 attributes #0 = { readnone "k"="v" }
 attributes #0 = { nounwind }
+;;; ATOM func/attrgroup-respelled-duplicates
+declare void @f() #0
+declare void @g() #1
+attributes #0 = { "a" "\61" "k"="v" "\6b"="\76" nounwind }
+attributes #1 = { alignstack=8 alignstack = 8 "x" }
